@@ -475,6 +475,13 @@ def mode_score_entry_points(p):
         same_enroll = np.allclose(e1, e2) if kind == "isv" else (np.allclose(e1[0], e2[0]) and np.allclose(e1[1], e2[1]))
         if not np.isclose(a, b, rtol=1e-10) or not same_enroll:
             return {"reproduced": True, "what": "array-level score/enrol differs from the statistics-level one on the UBM statistics of the same arrays"}
+        # a probe whose frames arrive one by one as 1-D vectors (a list of frames, or a bare (n_frames, n_features) array)
+        for frames in ([arrs[1][0]], list(arrs[1]), arrs[1]):
+            a1 = mm.score_using_array(model, frames)
+            b1 = mm.score(model, [ubm.acc_stats(x) for x in frames])
+            if not np.isclose(a1, b1, rtol=1e-10):
+                return {"reproduced": True, "input": {"frames": np.asarray(frames).tolist(), "machine": kind}, "observed": float(a1), "expected": float(b1),
+                        "what": "score_using_array of a probe given as 1-D frames differs from score() on the UBM statistics of the same frames"}
         if kind == "isv":
             t = mm.transform(arrs[0])
             if not np.allclose(t, mm.estimate_ux([ubm.acc_stats(arrs[0])]), rtol=1e-10):
